@@ -77,6 +77,11 @@ theorem inI64_bounds {ms : Int} (h : inI64 ms = true) :
   simp only [inI64, i64Min, i64Max, Bool.and_eq_true] at h
   exact ⟨of_decide_eq_true h.1, of_decide_eq_true h.2⟩
 
+theorem inI64_of {i : Int} (h1 : -9223372036854775808 ≤ i) (h2 : i ≤ 9223372036854775807) : inI64 i = true := by
+  unfold inI64 i64Min i64Max
+  rw [Bool.and_eq_true]
+  exact ⟨decide_eq_true h1, decide_eq_true h2⟩
+
 theorem natAbs_le_u64 (ms : Int) (h : inI64 ms = true) : ms.natAbs ≤ Duration.u64Max := by
   have := inI64_bounds h
   simp only [Duration.u64Max]
@@ -154,6 +159,86 @@ theorem leaf_datetime (ms : Int) (h : inI64 ms = true) : LeafOK canonRepr (.date
           bind, Except.bind]
       simp [ev, evaluate, evaluateList, callExt_epoch, callExt_duration ms h, s, hoff]
     exact ⟨h1, h2, h3, _, h4, _, h5, Value.beq_rfl _⟩
+
+
+/-! ### decimal -/
+
+theorem pad4_spec (m : Nat) (h : m < 10000) :
+    (∀ c, c ∈ pad4 m → isDigit c = true) ∧ natOfDigits (pad4 m) = m ∧ (pad4 m).length = 4 := by
+  have d3 := digitChar_props (m / 1000 % 10) (Nat.mod_lt _ (by omega))
+  have d2 := digitChar_props (m / 100 % 10) (Nat.mod_lt _ (by omega))
+  have d1 := digitChar_props (m / 10 % 10) (Nat.mod_lt _ (by omega))
+  have d0 := digitChar_props (m % 10) (Nat.mod_lt _ (by omega))
+  refine ⟨?_, ?_, rfl⟩
+  · intro c hc
+    simp only [pad4, List.mem_cons, List.not_mem_nil, or_false] at hc
+    rcases hc with rfl | rfl | rfl | rfl
+    · exact d3.1
+    · exact d2.1
+    · exact d1.1
+    · exact d0.1
+  · simp only [natOfDigits, pad4, List.foldl_cons, List.foldl_nil, d3.2, d2.2, d1.2, d0.2]
+    omega
+
+theorem decimal_split (neg : Bool) (ip fp : List Char) (hip : ip ≠ []) (hfp : fp ≠ [])
+    (hdi : ∀ c, c ∈ ip → isDigit c = true) (hdf : ∀ c, c ∈ fp → isDigit c = true) :
+    Decimal.split ((if neg then ['-'] else []) ++ ip ++ ['.'] ++ fp) = some (neg, ip, fp) := by
+  have s1 : spanDigits (ip ++ '.' :: fp) = (ip, '.' :: fp) :=
+    spanDigits_append ip _ hdi (by intro c r h; cases h; decide)
+  have s2 : spanDigits fp = (fp, []) := by
+    have := spanDigits_append fp [] hdf (by intro c r h; cases h)
+    simpa using this
+  have e1 : ip.isEmpty = false := by cases ip <;> simp_all
+  have e2 : fp.isEmpty = false := by cases fp <;> simp_all
+  unfold Decimal.split
+  cases neg with
+  | true =>
+    simp only [if_true, List.cons_append, List.nil_append, List.append_assoc]
+    simp [s1, s2, e1, e2]
+  | false =>
+    obtain ⟨d, ip', rfl⟩ : ∃ d ip', ip = d :: ip' := by
+      cases ip with | nil => exact absurd rfl hip | cons d ip' => exact ⟨d, ip', rfl⟩
+    have hd0 := (digit_not_special (hdi d (List.mem_cons_self ..))).1
+    simp only [Bool.false_eq_true, if_false, List.nil_append, List.append_assoc, List.cons_append] at s1 ⊢
+    simp [Decimal.split, hd0, s1, s2, e2]
+
+/-- `decimal("<canonical rendering of v>")` parses back to `v` -/
+theorem decimal_parse_render (v : Int) (h : inI64 v = true) :
+    Decimal.parse (String.ofList (renderDecimal v)) = some v := by
+  obtain ⟨hne, hdig, hval⟩ := decDigits_spec (v.natAbs / 10000)
+  obtain ⟨pdig, pval, plen⟩ := pad4_spec (v.natAbs % 10000) (Nat.mod_lt _ (by omega))
+  have hb := inI64_bounds h
+  have hsplit := decimal_split (decide (v < 0)) (decDigits (v.natAbs / 10000)) (pad4 (v.natAbs % 10000)) hne
+    (by simp [pad4]) hdig pdig
+  have hrender : renderDecimal v = (if decide (v < 0) = true then ['-'] else []) ++ decDigits (v.natAbs / 10000) ++ ['.'] ++ pad4 (v.natAbs % 10000) := by
+    simp [renderDecimal]
+  simp only [Decimal.parse, String.toList_ofList, hrender, hsplit, hval, pval, plen]
+  simp only [Decimal.arith, bind, Option.bind]
+  by_cases hneg : v < 0
+  · have hn : (v.natAbs : Int) = -v := Int.ofNat_natAbs_of_nonpos (by omega)
+    generalize v.natAbs = n at *
+    have a1 : inI64 (-((n : Int) / 10000)) = true := by apply inI64_of <;> omega
+    have a2 : inI64 (-((n : Int) / 10000) * 10000) = true := by apply inI64_of <;> omega
+    have a3 : inI64 ((n : Int) % 10000) = true := by apply inI64_of <;> omega
+    have a5 : -((n : Int) / 10000) * 10000 - (n : Int) % 10000 = v := by omega
+    simp [hneg, checkedI64_of a1, checkedI64_of a2, checkedI64_of a3, a5, checkedI64_of h]
+  · have hn : (v.natAbs : Int) = v := Int.natAbs_of_nonneg (by omega)
+    generalize v.natAbs = n at *
+    have a1 : inI64 ((n : Int) / 10000) = true := by apply inI64_of <;> omega
+    have a2 : inI64 ((n : Int) / 10000 * 10000) = true := by apply inI64_of <;> omega
+    have a3 : inI64 ((n : Int) % 10000) = true := by apply inI64_of <;> omega
+    have a5 : (n : Int) / 10000 * 10000 + (n : Int) % 10000 = v := by omega
+    simp [hneg, checkedI64_of a1, checkedI64_of a2, checkedI64_of a3, a5, checkedI64_of h]
+
+theorem callExt_decimal (v : Int) (h : inI64 v = true) :
+    callExt "decimal" [.prim (.string (String.ofList (renderDecimal v)))] = .ok (.ext (.decimal v)) := by
+  simp [callExt, extFnArity, callExt1, Value.asString, decimal_parse_render v h, optToExt, bind, Except.bind]
+
+/-- `ExtRoundTrip` for decimals -/
+theorem leaf_decimal (v : Int) (h : inI64 v = true) : LeafOK canonRepr (.decimal v) := by
+  refine ⟨.extnSingle "decimal" (.str (String.ofList (renderDecimal v))), ?_, ?_⟩
+  · simp [fromValueWith, canonRepr, litS, fromExprList, fromExpr, CJ.ofPrim, bind, Except.bind]
+  · exact rt_single _ _ _ (by decide) (by decide) (callExt_decimal v h)
 
 end CJson
 end Cedar
